@@ -13,6 +13,7 @@ LEVEL_TEXT = ("Bounded verification by symbolic execution of the real CircularRe
 LEVEL_NOTE = ("Bounds: n<=14 quick / n<=24 thorough; 1-2 features of 1-2 parts. The coordinate flip itself is Biopython's "
               "(modelled statement by statement, validated differentially); the repository-side content is argument "
               "pass-through, re-wrapping and the interaction with >>. Trusted: z3, CPython, symx models.")
+LEVEL_NOTE_EXTRA = 'CDS- and source-typed features; edits (feature appended, sequence replaced) between two reverse complements.'
 TECHNIQUE = "bounded symbolic execution of the real Python source (symx) with z3; replay on the real stack"
 EXPLANATION = ("symbolic execution of CircularRecord.reverse_complement/__init__/__rshift__ on symbolic records with symbolic "
                "feature tables; z3 decides every clause")
